@@ -130,6 +130,50 @@ def run(ctx):
              any(isinstance(s_, ast.Return) and (s_.value is None or (isinstance(s_.value, ast.Constant) and s_.value.value is None)) for s_ in x.body) for x in amb)
     c.ob("R8", ok, rt, "ambiguous-target-resolves-to-none", "an address matching several children resolves to no actor (the send is dropped with a warning)" if ok else
          "an ambiguous address no longer resolves to None: the message goes to an arbitrary one of the matching children", rt.node)
+    # ---- R11 a delayed send waits out its delay, is then delivered, and only a cancellation prevents that --------
+    # ---- R12 a finished delayed send removes its own canceller only (the id may have been re-used) -----------------
+    for v in VIEWS:
+        d = roles(ctx, v).deliver
+        dparam = d.params[3] if len(d.params) > 3 else "delay"
+        workers = [n_ for n_ in d.nested.values() if any(isinstance(x, ast.Call) and isinstance(x.func, ast.Attribute) and x.func.attr in ("sleep", "wait")
+                                                        and any(dparam in norm(a_) for a_ in x.args) for x in own_nodes(n_.node))]
+        if not c.expect("R11", f"delayed-delivery worker in {d.short}", len(workers), 1, d,
+                        f"{d.short} has no nested worker that waits for the delay any more: a delayed send is delivered at once (or never)"):
+            continue
+        w = workers[0]
+        g = cfg_of(w.node)
+        waits = [x for x in own_nodes(w.node) if isinstance(x, ast.Call) and isinstance(x.func, ast.Attribute) and x.func.attr in ("sleep", "wait")
+                 and any(dparam in norm(a_) for a_ in x.args)]
+        sends = [x for x in own_nodes(w.node) if isinstance(x, ast.Call) and isinstance(x.func, ast.Attribute) and x.func.attr in ("send", "_send_to_actor")
+                 and any(norm(a_) == d.params[2] for a_ in x.args)]
+        if c.expect("R11", f"delivery call in {w.short}", len(sends), 1, w, f"{w.short} no longer delivers the event after the delay: a delayed send is silently lost"):
+            wn = [i for x in waits for i in cfg_node_of(w, x)]
+            ok = all(g.always_before(wn, i, follow_exc=False) for x in sends for i in cfg_node_of(w, x))
+            c.ob("R11", ok, w, f"{v}:wait-before-delivery", "the delivery happens only after the wait for the delay" if ok else
+                 "the delivery is reachable without waiting for the delay", sends[0])
+            for x in sends:
+                at = guards_at(w, x)
+                consts = [a for a, pol in at if isinstance(a, ast.Constant)]
+                cancel_tests = [(a, pol) for a, pol in at if isinstance(a, ast.Call) and isinstance(a.func, ast.Attribute) and a.func.attr == "wait"]
+                ok = not consts and all(not pol for a, pol in cancel_tests)
+                c.ob("R11", ok, w, f"{v}:delivered-unless-cancelled", "the event is delivered exactly when the wait was not cut short by a cancellation" if ok else
+                     f"the delivery is guarded by {[('' if pol else 'not ') + norm(a) for a, pol in at]}: a send that was not cancelled is not delivered "
+                     f"(or a cancelled one is)", x)
+        started = any(isinstance(x, ast.Call) and ((norm(x.func) in ("asyncio.create_task",) and w.name in norm(x)) or
+                                                   (isinstance(x.func, ast.Attribute) and x.func.attr == "start")) for x in own_nodes(d.node)) and \
+            any(w.name in norm(x) for x in own_nodes(d.node) if isinstance(x, ast.Call) and (norm(x.func) == "asyncio.create_task" or norm(x.func) == "threading.Thread"))
+        c.ob("R11", started, d, f"{v}:worker-started", "the worker is started" if started else
+             f"the delayed-delivery worker {w.name} is never started: a delayed send is silently lost", d.node)
+        # R12: the registry entry is removed only if it is still this send's canceller
+        pops = [x for x in own_nodes(w.node) if isinstance(x, ast.Call) and isinstance(x.func, ast.Attribute) and x.func.attr == "pop" and "_scheduled_sends" in norm(x.func.value)]
+        for x in pops:
+            at = [canon_atom(a, pol) for a, pol in guards_at(w, x)]
+            ident = any(t[0] == "is" and t[3] is True and any("_scheduled_sends.get(" in z for z in (t[1], t[2])) for t in at)
+            # (being past the cancellation test is not enough: the id can be re-used between the wait timing out and this clean-up)
+            ok = ident
+            c.ob("R12", ok, w, f"{v}:own-canceller-only", "a finished send removes the canceller registered under its id only if it is still its own" if ok else
+                 f"'{norm(x)}' is not guarded by 'the registered canceller is this send's own' (guards: {at}): a newer send that re-used the id loses its "
+                 f"canceller and cancel(id) can no longer prevent it", x)
     # ---- R10 exactly the addressed actor: an actor is handed out only under a positive, simple test of the address ----
     spec = rt.params[1] if len(rt.params) > 1 else "spec"
     n10 = 0
